@@ -49,6 +49,44 @@ theorem markHandled_getP (k : K) (p rid : Nat) (q : Nat) :
   · rename_i hh; rw [hh.1]; exact ⟨rfl, rfl, rfl⟩
   · exact ⟨rfl, rfl, rfl⟩
 
+theorem frozen_addReactions (k : K) (q : Nat) (cap : Option Cap) (f g : Option Fn) (p : Nat) :
+    Frozen k (addReactions k q cap f g) p := by
+  simp only [addReactions]
+  split
+  · obtain ⟨a1, a2, _⟩ := markHandled_getP
+      (addReactionsCore { k with nextRid := k.nextRid + 1 } q
+        { cap := cap, isFul := true, handler := f, rid := k.nextRid }
+        { cap := cap, isFul := false, handler := g, rid := k.nextRid }) q k.nextRid p
+    obtain ⟨b1, b2, _⟩ := addReactionsCore_getP { k with nextRid := k.nextRid + 1 } q
+        { cap := cap, isFul := true, handler := f, rid := k.nextRid }
+        { cap := cap, isFul := false, handler := g, rid := k.nextRid } p
+    exact ⟨by rw [a1, b1]; rfl, by rw [a2, b2]; rfl⟩
+  · exact ⟨rfl, rfl⟩
+
+theorem popJobQ_proms (k : K) : (popJobQ k).proms = k.proms := by
+  unfold popJobQ
+  split
+  · rfl
+  · split <;> rfl
+
+theorem popJobQ_tracker (k : K) : (popJobQ k).tracker = k.tracker := by
+  unfold popJobQ
+  split
+  · rfl
+  · split <;> rfl
+
+theorem popJobQ_enqEver (k : K) : (popJobQ k).enqEver = k.enqEver := by
+  unfold popJobQ
+  split
+  · rfl
+  · split <;> rfl
+
+theorem popJobQ_nextRid (k : K) : (popJobQ k).nextRid = k.nextRid := by
+  unfold popJobQ
+  split
+  · rfl
+  · split <;> rfl
+
 /-- settle_once, one step: no kernel op changes the state or result of a settled promise. -/
 theorem frozen_applyOp {k : K} (h : TInv k) (op : KOp) (p : Nat) (hp : (k.getP p).state ≠ .pending) :
     Frozen k (applyOp op k) p := by
@@ -97,22 +135,24 @@ theorem frozen_applyOp {k : K} (h : TInv k) (op : KOp) (p : Nat) (hp : (k.getP p
         simp [hne]
         exact ⟨rfl, rfl⟩
   | addReactions q cap f g =>
-    simp only [applyOp, addReactions]
+    simp only [applyOp]
     split
-    · obtain ⟨a1, a2, _⟩ := markHandled_getP
-        (addReactionsCore { k with nextRid := k.nextRid + 1 } q
-          { cap := cap, isFul := true, handler := f, rid := k.nextRid }
-          { cap := cap, isFul := false, handler := g, rid := k.nextRid }) q k.nextRid p
-      obtain ⟨b1, b2, _⟩ := addReactionsCore_getP { k with nextRid := k.nextRid + 1 } q
-          { cap := cap, isFul := true, handler := f, rid := k.nextRid }
-          { cap := cap, isFul := false, handler := g, rid := k.nextRid } p
-      exact ⟨by rw [a1, b1]; rfl, by rw [a2, b2]; rfl⟩
+    · exact frozen_addReactions k q cap f g p
     · exact ⟨rfl, rfl⟩
   | popJob =>
     simp only [applyOp, popJob]
     split
     · exact ⟨rfl, rfl⟩
-    · split <;> exact ⟨rfl, rfl⟩
+    · exact frozen_of_proms_eq (popJobQ_proms k) p
+  | asyncStart => exact ⟨rfl, rfl⟩
+  | await ar q =>
+    simp only [applyOp, awaitOp]
+    split
+    · exact frozen_addReactions k q none _ _ p
+    · exact ⟨rfl, rfl⟩
+  | asyncDone ar =>
+    simp only [applyOp, asyncDone]
+    split <;> exact ⟨rfl, rfl⟩
   | leaveAbrupt => exact ⟨rfl, rfl⟩
 
 end GojaModel.C10
